@@ -16,8 +16,13 @@ CONSTANTS
   Modes = {"quorum"}
   Counts = {1}
   Gens = {1}
+  QLogs = {FALSE}
+  StoreLeos = {0}
+  StoreCks = {0}
+  RGens = {1}
+  MaxFut = 1000000
 CONSTRAINT Track
-INVARIANTS Conform TypeOK C06_Order
-PROPERTIES C06_HWMonotone C06_QuorumReply C06_ReplyOnce C06_StaleFence C06_StaleMeta C06_AckGuard
+INVARIANTS Conform TypeOK FolTypeOK C06_Order
+PROPERTIES C06_HWMonotone C06_QuorumReply C06_ReplyOnce C06_StaleFence C06_StaleMeta C06_AckGuard C06_StaleFenceF C06_StaleMetaF
 POSTCONDITION Accepted
 CHECK_DEADLOCK FALSE
